@@ -783,6 +783,12 @@ func (s *SMT) VerifyProof(k []byte, v []byte, validateMembership bool, root []by
 	if proofLen < 2 {
 		return false, ErrInvalidMerkleTreeProof()
 	}
+	// every node in the proof must carry a well-formed node key before any bit operation is done on it
+	for _, n := range proof {
+		if n == nil || !validNodeKey(n.Key, s.keyBitLength) {
+			return false, ErrInvalidMerkleTreeProof()
+		}
+	}
 	// The target is always the first value in the proof. For membership
 	// proofs, it represents the actual value being verified. For non-membership proofs,
 	// it indicates the potential location of the node. The initial root hash
@@ -797,6 +803,8 @@ func (s *SMT) VerifyProof(k []byte, v []byte, validateMembership bool, root []by
 	if err != nil {
 		return false, err
 	}
+	// release the in-memory store once the verification is done
+	defer memStore.Close()
 	// Reconstruct a similar Merkle tree using the proof nodes. This allows to traverse
 	// the tree again to verify if the given key and value are included in the tree or
 	// to confirm proof-of-non-membership if the key is absent.
@@ -849,7 +857,7 @@ func (s *SMT) VerifyProof(k []byte, v []byte, validateMembership bool, root []by
 		gcp := new(key)
 		// calculate the GCP between the node and the sibling based on the length of
 		// the least significant bits to avoid out of bounds errors
-		if currentKey.totalBits() < currentKey.totalBits() {
+		if nodeKey.totalBits() < currentKey.totalBits() {
 			currentKey.greatestCommonPrefix(new(int), gcp, nodeKey)
 		} else {
 			nodeKey.greatestCommonPrefix(new(int), gcp, currentKey)
@@ -979,6 +987,22 @@ func newNodeKey(data []byte, bitCount int) (k *key) {
 	k.bitCount = bitCount
 	// exit with key
 	return k
+}
+
+// validNodeKey() checks if the bytes are a well-formed encoded node key of at most maxBits bits
+func validNodeKey(data []byte, maxBits int) bool {
+	// at least one data byte and the meta byte
+	if len(data) < 2 {
+		return false
+	}
+	// number of significant bits in the last data byte and its left padding (meta byte)
+	bitLen, leftPadding := bits.Len8(data[len(data)-2]), int(data[len(data)-1])
+	// ensure only '0' still counts as 1 bit
+	if bitLen == 0 {
+		bitLen = 1
+	}
+	// the last data byte can't hold more than 8 bits and the key can't be longer than the tree depth
+	return leftPadding+bitLen <= 8 && (len(data)-2)*8+leftPadding+bitLen <= maxBits
 }
 
 // greatestCommonPrefix() calculates the greatest common prefix (GCP) between the current key and another key.
